@@ -41,35 +41,65 @@ func precedes(a, b ssa.Instruction) bool {
 	return a.Block().Dominates(b.Block())
 }
 
-// heldAt: some Lock/RLock of the mutex dominates instr and no non-deferred Unlock/RUnlock of it lies
-// on a path between that lock and instr.
+// heldAt decides by a forward must-dataflow whether the mutex is held on every path reaching instr:
+// state after Lock/RLock = held, after a non-deferred Unlock/RUnlock = not held; meet = logical and.
 func heldAt(fn *ssa.Function, instr ssa.Instruction, mutexSuffix string, lockNames []string, unlockNames []string) bool {
-	var locks, unlocks []ssa.Instruction
-	for _, ci := range allCalls(fn) {
+	type st = bool
+	effect := func(in ssa.Instruction, cur st) st {
+		ci, ok := in.(ssa.CallInstruction)
+		if !ok {
+			return cur
+		}
 		if _, isDefer := ci.(*ssa.Defer); isDefer {
-			continue
+			return cur
+		}
+		if _, isGo := ci.(*ssa.Go); isGo {
+			return cur
 		}
 		if isLockCall(ci, mutexSuffix, lockNames...) {
-			locks = append(locks, ci.(ssa.Instruction))
-		}
-		if isLockCall(ci, mutexSuffix, unlockNames...) {
-			unlocks = append(unlocks, ci.(ssa.Instruction))
-		}
-	}
-	for _, l := range locks {
-		if !precedes(l, instr) {
-			continue
-		}
-		bad := false
-		for _, u := range unlocks {
-			if between(l, u, instr) {
-				bad = true
-				break
-			}
-		}
-		if !bad {
 			return true
 		}
+		if isLockCall(ci, mutexSuffix, unlockNames...) {
+			return false
+		}
+		return cur
+	}
+	out := map[*ssa.BasicBlock]st{}
+	for _, b := range fn.Blocks {
+		out[b] = true // optimistic
+	}
+	inState := func(b *ssa.BasicBlock) st {
+		if b == fn.Blocks[0] {
+			return false
+		}
+		if len(b.Preds) == 0 {
+			return false
+		}
+		v := true
+		for _, p := range b.Preds {
+			v = v && out[p]
+		}
+		return v
+	}
+	for changed := true; changed; {
+		changed = false
+		for _, b := range fn.Blocks {
+			cur := inState(b)
+			for _, in := range b.Instrs {
+				cur = effect(in, cur)
+			}
+			if out[b] != cur {
+				out[b] = cur
+				changed = true
+			}
+		}
+	}
+	cur := inState(instr.Block())
+	for _, in := range instr.Block().Instrs {
+		if in == instr {
+			return cur
+		}
+		cur = effect(in, cur)
 	}
 	return false
 }
